@@ -318,7 +318,11 @@ def parse_log(text, harnesses):
                 if mm:
                     kind = mm.group(1)
                     desc = mm.group(2)
-            r.setdefault("playback", []).append({"kind": kind, "description": desc, "test": "\n".join(body)})
+            # keep only the test function: Kani's doc comment repeats the (possibly multi-line) check description
+            code = "\n".join(body)
+            if "#[test]" in code:
+                code = code[code.index("#[test]"):]
+            r.setdefault("playback", []).append({"kind": kind, "description": desc, "test": code})
             i = j + 1
             continue
         if cur is not None:
@@ -582,7 +586,7 @@ def check(prop, tier, keep=False):
                     # A harness without symbolic inputs (a concretely enumerated scenario family) has no
                     # values to play back: it is simply executed natively. If it needs values after all,
                     # the native run stops inside Kani's playback library, which is not a reproduction.
-                    tests = [f"/// Test generated for harness `{h['full_name']}` (no symbolic inputs)\n#[test]\n"
+                    tests = [f"#[test]\n"
                              f"fn kani_concrete_playback_{h['name']}_noinputs() {{\n"
                              f"    let concrete_vals: Vec<Vec<u8>> = vec![];\n"
                              f"    kani::concrete_playback_run(concrete_vals, {h['name']});\n}}"]
@@ -708,7 +712,7 @@ def replay(path):
         print(f"harness {hname} no longer exists")
         return 2
     h = hs[0]
-    tests = re.findall(r"(?ms)^(/// Test generated.*?^\})", text)
+    tests = re.findall(r"(?ms)^(#\[test\]\nfn kani_concrete_playback_.*?^\})", text)
     tmp_root = tempfile.mkdtemp(prefix=f"verif-replay-", dir=os.environ.get("TMPDIR", "/tmp"))
     try:
         twin_dir = os.path.join(tmp_root, f"twin-{flavour}")
